@@ -422,6 +422,12 @@ def _der(b, name):
     if name == "var-used-twice":
         x = variable(tv() * f())
         return x + 2 * x, (b.v,), b.ok()
+    if name == "var-bilinear":
+        return variable(tv() * tu()) * f(), (b.v, b.u), b.ok()
+    if name == "var-bilinear-times-trial":
+        return variable(tv() * tu()) * tu(), (b.v, b.u), "bad"
+    if name == "var-nested":
+        return variable(variable(tv()) * f() + f() * variable(tv())), (b.v,), b.ok()
     if name == "var-squared":
         x = variable(tv())
         return x * x, (b.v,), "bad"
@@ -481,7 +487,7 @@ def _der(b, name):
 
 
 DER = ["var-arg", "var-coef-diff-outside", "var-coef-diff-around-arg", "var-arg-diff", "var-arg-diff-linear", "var-affine", "var-used-twice",
-       "var-squared", "grad-arg", "grad-arg-fixed", "dx-arg", "div-arg", "curl-arg", "grad-product", "grad-square", "grad-affine", "grad-grad",
+       "var-squared", "var-bilinear", "var-bilinear-times-trial", "var-nested", "grad-arg", "grad-arg-fixed", "dx-arg", "div-arg", "curl-arg", "grad-product", "grad-square", "grad-affine", "grad-grad",
        "grad-of-math", "grad-listtensor", "grad-bilinear", "grad-uv-product", "ct-wrap", "ct-affine", "ct-outer", "indexsum-square", "cell-avg"]
 
 
